@@ -293,6 +293,15 @@ func ruleAMR(r *Run) {
 					}
 				}
 			}
+			if sc != nil && !inModule(sc) && sc.Signature.Recv() != nil && cn != "(*sync.WaitGroup).Wait" {
+				// a method of a library type that takes a lock, a slot or waits (x/sync semaphore, errgroup …)
+				switch sc.Name() {
+				case "Lock", "RLock", "Wait", "Acquire":
+					nA11++
+					a.bad("A11", "blocking-call:"+cn, ci, "the fan-out helper calls "+cn+" itself: synchronisation beyond the channel and wait-group protocol is outside the checked obligations (a lock or slot held while the map function runs makes nested fan-outs wait for each other forever)")
+					continue
+				}
+			}
 			if ci.Common().IsInvoke() {
 				switch ci.Common().Method.Name() {
 				case "Lock", "RLock", "Wait", "Acquire":
